@@ -1,0 +1,22 @@
+//go:build verif
+// +build verif
+
+// Contracts and executable spec functions for package utils (checked by /verif/govc).
+// Compiled only with -tags verif; the normal build and the test suite never see this file.
+
+package utils
+
+// SpecFnv1a is the historical beansdb FNV-1a variant: every byte is sign-extended before the
+// xor (C16). n is the number of leading bytes folded.
+func SpecFnv1a(d []byte, n int) uint32 {
+	if n <= 0 {
+		return 0x811c9dc5
+	}
+	return (SpecFnv1a(d, n-1) ^ uint32(int32(int8(d[n-1])))) * 0x01000193
+}
+
+//@ func Fnv1a
+//@   props C16 C10 C01
+//@   ints bv
+//@   ensures h == SpecFnv1a(buf, len(buf))
+//@   loop 1 invariant h == SpecFnv1a(buf, $index)
